@@ -40,13 +40,13 @@ def plan(tier, seed):
     big = tier != "quick"
     specs = []
     for j in range(8):
-        specs.append({"name": f"reverse{j}", "mode": "reverse", "j": j, "seed": seed, "cases": 25 if not big else 600})
+        specs.append({"name": f"reverse{j}", "mode": "reverse", "j": j, "seed": seed, "cases": 60 if not big else 600})
     for j in range(4):
-        specs.append({"name": f"order{j}", "mode": "order", "j": j, "seed": seed, "cases": 10 if not big else 120})
+        specs.append({"name": f"order{j}", "mode": "order", "j": j, "seed": seed, "cases": 25 if not big else 120})
     for j in range(4):
         specs.append({"name": f"refresh{j}", "mode": "refresh", "j": j, "seed": seed, "n": 120000 if not big else 1500000})
     for j in range(4):
-        specs.append({"name": f"hmc{j}", "mode": "hmc", "j": j, "seed": seed, "steps": 120 if not big else 1500})
+        specs.append({"name": f"hmc{j}", "mode": "hmc", "j": j, "seed": seed, "steps": 300 if not big else 1500})
     return specs
 
 
